@@ -245,7 +245,7 @@ func genSchema(r *hx.Rand) *SchemaDesc {
 	}
 	// features: hide a few own (non-interface) fields, and sometimes a whole object type that only
 	// hidden fields refer to.
-	if r.Chance(1, 3) {
+	if r.Chance(1, 2) {
 		for ti := range d.Types {
 			t := &d.Types[ti]
 			if t.Kind != "object" || len(t.Fields) < 2 {
@@ -263,16 +263,33 @@ func genSchema(r *hx.Rand) *SchemaDesc {
 				}
 			}
 		}
-		if r.Chance(1, 2) {
+		if r.Chance(2, 3) {
 			h := TypeDesc{Kind: "object", Name: "H0", Features: []string{"fx"},
 				Fields: []FieldDesc{{Name: "h", Type: Named("String")}}}
 			// sometimes the hidden type implements an interface (possible types follow the request's
 			// features since b106873): it is then a possible type only when "fx" is enabled
-			if len(g.ifaces) > 0 && r.Chance(1, 2) {
-				in := hx.Pick(r, g.ifaces)
-				h.Interfaces = []string{in}
-				for _, f := range ifaceFields[in] {
-					h.Fields = append(h.Fields, FieldDesc{Name: f.Name, Type: f.Type, Args: append([]InputDesc{}, f.Args...)})
+			// (and, with two interfaces, sometimes both: then it may be their only common
+			// implementation, and a spread of one inside the other hinges on the feature)
+			if len(g.ifaces) > 0 && r.Chance(2, 3) {
+				taken := map[string]bool{"h": true}
+				for _, in := range g.ifaces {
+					if len(h.Interfaces) > 0 && !r.Chance(2, 3) {
+						continue
+					}
+					clash := false
+					for _, f := range ifaceFields[in] {
+						if taken[f.Name] {
+							clash = true
+						}
+					}
+					if clash {
+						continue
+					}
+					h.Interfaces = append(h.Interfaces, in)
+					for _, f := range ifaceFields[in] {
+						taken[f.Name] = true
+						h.Fields = append(h.Fields, FieldDesc{Name: f.Name, Type: f.Type, Args: append([]InputDesc{}, f.Args...)})
+					}
 				}
 			}
 			d.Types = append(d.Types, h)
